@@ -19,9 +19,11 @@ import (
 	"os"
 	"os/exec"
 	"path/filepath"
+	"runtime"
 	"sort"
 	"strconv"
 	"strings"
+	"sync"
 	"syscall"
 	"time"
 
@@ -86,6 +88,9 @@ type Engine struct {
 	// Custom, when set, replaces build+run (adapters). It must write the partial.
 	Custom func(c *ctx, e *Engine, rep int, out, cur, logf string) error
 	Tags   string
+	// Par: the engine is single-threaded (GOMAXPROCS=1 or the cooperative scheduler) and keeps its files under
+	// VERIF_SCRATCH_DIR, so its repetitions (different seeds) run concurrently, one per core.
+	Par bool
 }
 
 type Spec struct {
@@ -205,7 +210,7 @@ func (c *ctx) build(e *Engine) (string, error) {
 	if e.Tags != "" {
 		args = append(args, "-tags", e.Tags)
 	}
-	if len(e.Instr) > 0 {
+	if len(e.Instr) > 0 && os.Getenv("VERIF_NOSHIM") == "" { // VERIF_NOSHIM: self-test of the "no yield points" path
 		ov, err := instrument(filepath.Join(c.scratch, "instr-"+e.Name), e.Instr)
 		if err != nil {
 			return "", fmt.Errorf("instrument: %w", err)
@@ -269,11 +274,15 @@ func (c *ctx) runEngine(e *Engine, onlyCase int) *engineResult {
 	}
 	replayDir := filepath.Join(outBase(), "replays", c.spec.ID)
 	_ = os.MkdirAll(replayDir, 0o755)
-	for i := 0; i < rep; i++ {
+	var mu sync.Mutex
+	runRep := func(i int) {
 		out := filepath.Join(c.scratch, fmt.Sprintf("%s-%d.json", e.Name, i))
-		cur := filepath.Join(replayDir, fmt.Sprintf("current-%s.json", e.Name))
+		cur := filepath.Join(replayDir, fmt.Sprintf("current-%s-%d.json", e.Name, i))
 		logf := filepath.Join(c.scratch, fmt.Sprintf("%s-%d.log", e.Name, i))
 		_ = os.Remove(cur)
+		defer os.Remove(cur)
+		repScratch := filepath.Join(c.scratch, fmt.Sprintf("rep-%s-%d", e.Name, i))
+		_ = os.MkdirAll(repScratch, 0o755)
 		seed := c.seed + int64(i)*1000003
 		var runErr error
 		timedOut := false
@@ -284,10 +293,10 @@ func (c *ctx) runEngine(e *Engine, onlyCase int) *engineResult {
 			cmd := exec.CommandContext(cx, bin)
 			cmd.Cancel = func() error { return cmd.Process.Signal(syscall.SIGQUIT) }
 			cmd.WaitDelay = 20 * time.Second
-			cmd.Dir = c.scratch
+			cmd.Dir = repScratch
 			env := append(goEnv(), e.Env...)
 			env = append(env, "VERIF_OUT="+out, "VERIF_CUR="+cur, "VERIF_TIER="+c.tier,
-				"VERIF_SEED="+strconv.FormatInt(seed, 10), "VERIF_SCRATCH_DIR="+c.scratch, "VERIF_REP="+strconv.Itoa(i))
+				"VERIF_SEED="+strconv.FormatInt(seed, 10), "VERIF_SCRATCH_DIR="+repScratch, "VERIF_REP="+strconv.Itoa(i))
 			if onlyCase >= 0 {
 				env = append(env, "VERIF_ONLY_CASE="+strconv.Itoa(onlyCase))
 			}
@@ -308,6 +317,8 @@ func (c *ctx) runEngine(e *Engine, onlyCase int) *engineResult {
 		var p vk.Partial
 		b, rerr := os.ReadFile(out)
 		ok := rerr == nil && json.Unmarshal(b, &p) == nil && p.Done
+		mu.Lock()
+		defer mu.Unlock()
 		if ok {
 			res.partials = append(res.partials, &p)
 			for _, s := range p.Inconclusive {
@@ -342,6 +353,24 @@ func (c *ctx) runEngine(e *Engine, onlyCase int) *engineResult {
 			res.raceLogs += n
 		}
 	}
+	par := 1
+	if e.Par && !e.Race && e.Custom == nil {
+		par = runtime.NumCPU()
+	}
+	sem := make(chan struct{}, par)
+	var wg sync.WaitGroup
+	for i := 0; i < rep; i++ {
+		i := i
+		sem <- struct{}{}
+		wg.Add(1)
+		go func() {
+			defer func() { <-sem; wg.Done() }()
+			runRep(i)
+		}()
+	}
+	wg.Wait()
+	// deterministic order of the merged results whatever the completion order
+	sort.SliceStable(res.partials, func(a, b int) bool { return res.partials[a].Seed < res.partials[b].Seed })
 	return res
 }
 
